@@ -53,6 +53,10 @@ class Block(Exception):
     pass
 
 
+class EnterAttributeError(AttributeError):
+    """a manager's own __aenter__ / __enter__ fails with an AttributeError (a half-initialised resource)"""
+
+
 class GrumpyResult:
     """an exit result whose truth value cannot be determined (like an array)"""
 
@@ -68,7 +72,7 @@ def role(exc, block_exc):
         return None
     if exc is block_exc:
         return "block"
-    if isinstance(exc, (New, NewBase)):
+    if isinstance(exc, (New, NewBase, EnterAttributeError)):
         return ("new", exc.args[0])
     if isinstance(exc, (StopIteration, StopAsyncIteration)) and exc.args and isinstance(exc.args[0], tuple):
         return (type(exc).__name__,) + exc.args[0]
@@ -129,6 +133,8 @@ def entry_objects(i, kind, behaviour, log, block_ref):
             log.append(("enter", i))
             if behaviour == "enter-fails":
                 raise New(("enter", i))
+            if behaviour == "enter-fails-attr":
+                raise EnterAttributeError(("enter", i))
             return ("value", i)
 
         async def __aexit__(self, et, ev, tb):
@@ -140,6 +146,8 @@ def entry_objects(i, kind, behaviour, log, block_ref):
             log.append(("enter", i))
             if behaviour == "enter-fails":
                 raise New(("enter", i))
+            if behaviour == "enter-fails-attr":
+                raise EnterAttributeError(("enter", i))
             return ("value", i)
 
         def __exit__(self, et, ev, tb):
@@ -224,9 +232,23 @@ def entry_objects(i, kind, behaviour, log, block_ref):
     return ("callback", scallback), ("async", WrapCallback(scallback, False))
 
 
+def _objects(case, log, block_ref):
+    """(stack thing, nested reference) per entry; an entry whose kind ends in '+same' is the very same object as the
+    closest earlier entry of that kind (a re-entrant manager entered again, a handler pushed twice)"""
+    out = []
+    for i, (k, b) in enumerate(case["entries"]):
+        base = k[:-5] if k.endswith("+same") else k
+        prev = next((out[j] for j in range(i - 1, -1, -1) if case["entries"][j][0].replace("+same", "") == base), None)
+        if k.endswith("+same") and prev is not None:
+            out.append(prev)
+        else:
+            out.append(entry_objects(i, base, b, log, block_ref))
+    return out
+
+
 async def run_stack(case, log):
     block_ref = [None]
-    things = [entry_objects(i, k, b, log, block_ref)[0] for i, (k, b) in enumerate(case["entries"])]
+    things = [pair[0] for pair in _objects(case, log, block_ref)]
     try:
         async with a.ExitStack() as stack:
             for how, thing in things:
@@ -278,7 +300,7 @@ def nested_function(hows):
 
 async def run_nested(case, log):
     block_ref = [None]
-    refs = [entry_objects(i, k, b, log, block_ref)[1] for i, (k, b) in enumerate(case["entries"])]
+    refs = [pair[1] for pair in _objects(case, log, block_ref)]
 
     def block():
         log.append(("block",))
@@ -318,6 +340,7 @@ def entry_space():
         behaviours = list(BEHAVIOURS)
         if kind in ("acm", "scm"):
             behaviours.append("enter-fails")
+            behaviours.append("enter-fails-attr")
         if kind.startswith("callback"):
             behaviours = ["falsy", "truthy", "raise", "raise-base"]
         out.extend((kind, b) for b in behaviours)
@@ -337,8 +360,14 @@ def small_programs():
 @st.composite
 def programs(draw, lo, hi):
     space = entry_space()
-    entries = draw(st.lists(st.sampled_from(space), min_size=lo, max_size=hi))
-    return {"entries": [list(e) for e in entries], "block": draw(st.sampled_from(["normal", "raises"]))}
+    entries = [list(e) for e in draw(st.lists(st.sampled_from(space), min_size=lo, max_size=hi))]
+    if len(entries) >= 2 and draw(st.integers(0, 2)) == 0:
+        # the very same manager / handler object is registered once more (re-entrant managers, shared handlers)
+        j = draw(st.integers(1, len(entries) - 1))
+        src = entries[draw(st.integers(0, j - 1))]
+        if src[1] not in ("enter-fails", "enter-fails-attr"):
+            entries[j] = [src[0].replace("+same", "") + "+same", src[1]]
+    return {"entries": entries, "block": draw(st.sampled_from(["normal", "raises"]))}
 
 
 def program_nontrivial(case):
